@@ -51,7 +51,7 @@ FLIPS = {
     "flip:precond": ("min_preconditioning_size", 0),
     "flip:mcs3": ("max_cholesky_size", 3),  # between component size (2, 3) and operator size (6, 9); wins over flip:mcs when both are on
 }
-DERIVS = ["d:add_jitter", "d:add_diagonal", "d:add_low_rank", "d:add_low_rank_noroots", "d:cat_rows", "d:cat_rows_noinv", "d:index", "d:mT", "d:mul2", "d:expand"]
+DERIVS = ["d:add_jitter", "d:add_diagonal", "d:add_low_rank", "d:add_low_rank2", "d:add_low_rank_noroots", "d:cat_rows", "d:cat_rows2", "d:cat_rows_noinv", "d:index", "d:mT", "d:mul2", "d:expand"]
 
 
 def alphabet(tier):
@@ -276,6 +276,18 @@ def derive(op, M, d):
     if d == "d:add_diagonal":
         dg = torch.arange(1, n + 1, dtype=DT)
         return op.add_diagonal(dg), M + torch.diag_embed(dg)
+    if d == "d:add_low_rank2":  # two columns
+        v = torch.stack([torch.arange(1, n + 1, dtype=DT), torch.ones(n, dtype=DT) * torch.tensor([1.0, -1.0] * n)[:n]], -1).expand(*bs, n, 2).contiguous()
+        return op.add_low_rank(v), M + v @ v.mT
+    if d == "d:cat_rows2":  # two new rows: the Schur complement has a triangular (Cholesky) root of its own
+        cross = torch.ones(*bs, 2, n, dtype=DT) * 0.5
+        cross[..., 0, 0] = 1.0
+        cross[..., 1, -1] = -1.0
+        new = torch.eye(2, dtype=DT).expand(*bs, 2, 2) * (M.diagonal(dim1=-2, dim2=-1).sum(-1) + 5.0).reshape(*bs, 1, 1) + 0.5
+        child = op.cat_rows(cross, new.contiguous())
+        top = torch.cat([M, cross.mT], dim=-1)
+        bot = torch.cat([cross, new], dim=-1)
+        return child, torch.cat([top, bot], dim=-2)
     if d in ("d:add_low_rank", "d:add_low_rank_noroots"):
         v = torch.arange(1, n + 1, dtype=DT).unsqueeze(-1).expand(*bs, n, 1).contiguous()
         child = op.add_low_rank(v, generate_roots=(d == "d:add_low_rank"))
